@@ -1,4 +1,5 @@
 import RustbusModel.Lemmas.Body
+import RustbusModel.Model.BodyRollback
 /-!
 C15 — Body builder and parser are transactional across push/fail/reset/get histories.
 -/
@@ -81,6 +82,54 @@ theorem push_only_appends (b b' : Body) (items : List Item) (h : pushAll b items
       obtain ⟨e2, ⟨x2, hx2⟩, ⟨y2, hy2⟩, n2⟩ := ih b1 h
       exact ⟨by rw [e2, e1], ⟨x1 ++ x2, by rw [hx2, hx1, List.append_assoc]⟩,
         ⟨y1 ++ y2, by rw [hy2, hy1, List.append_assoc]⟩, by omega⟩
+
+/-- helper: the dirty body only extends the snapshot -/
+theorem pushDirty_extends (j : Junk) : ∀ (items : List Item) (b : Body), Extends b (pushDirty b j items).1 := by
+  intro items
+  induction items with
+  | nil => intro b; exact ⟨rfl, ⟨[], by simp [pushDirty]⟩, ⟨[], by simp [pushDirty]⟩, Nat.le_refl _⟩
+  | cons it its ih =>
+    intro b
+    simp only [pushDirty]
+    cases hp : pushItem b it with
+    | none => exact ⟨rfl, ⟨j.bytes, rfl⟩, ⟨j.sig, rfl⟩, Nat.le_add_right _ _⟩
+    | some b1 =>
+      simp only
+      obtain ⟨e1, ⟨x1, hx1⟩, ⟨y1, hy1⟩, n1⟩ := push_only_appends b b1 [it] (by simp [pushAll, hp])
+      obtain ⟨e2, ⟨x2, hx2⟩, ⟨y2, hy2⟩, n2⟩ := ih b1
+      exact ⟨by rw [e2, e1], ⟨x1 ++ x2, by rw [hx2, hx1, List.append_assoc]⟩,
+        ⟨y1 ++ y2, by rw [hy2, hy1, List.append_assoc]⟩, by omega⟩
+
+theorem pushDirty_ok_iff (j : Junk) : ∀ (items : List Item) (b : Body),
+    ((pushDirty b j items).2 = true → pushAll b items = some (pushDirty b j items).1) ∧
+    ((pushDirty b j items).2 = false → pushAll b items = none) := by
+  intro items
+  induction items with
+  | nil => intro b; simp [pushDirty, pushAll]
+  | cons it its ih =>
+    intro b
+    simp only [pushDirty, pushAll]
+    cases hp : pushItem b it with
+    | none => simp
+    | some b1 => simp only; exact ih b1
+
+/-- **The rollback is what makes a failed push traceless.** The mechanism as written - push onto the live body, on an error
+    truncate bytes, signature and descriptor list to the remembered lengths - is the atomic `push` of the model, WHATEVER a
+    failing marshaller left behind: on success the body is the pushed one, on failure it is exactly the body before the
+    call. -/
+theorem rollback_makes_push_atomic (b : Body) (j : Junk) (items : List Item) :
+    pushWithRollback b j items = push b items := by
+  unfold pushWithRollback push
+  obtain ⟨hok, hfail⟩ := pushDirty_ok_iff j items b
+  have hext := pushDirty_extends j items b
+  cases hd : pushDirty b j items with
+  | mk d ok =>
+    rw [hd] at hok hfail hext
+    cases ok with
+    | true => simp only at hok ⊢; rw [hok trivial]
+    | false =>
+      simp only at hfail ⊢
+      rw [hfail trivial, rollback_restores b d hext]
 
 /-- A reset leaves nothing attached. -/
 theorem reset_empty (b : Body) : step b .reset = Body.empty b.bo := rfl
@@ -188,6 +237,91 @@ theorem get_ok_advances (b : Body) (p p' : Parser) (t : Ty) (v : Val) (h : get b
         exact ⟨by simp [this], h1, h2, hd, h4⟩
       · cases h
 
+/-- helper: a chain of successful gets -/
+theorem getAll_ok_advances (b : Body) : ∀ (ts : List Ty) (p p' : Parser) (vs : List Val),
+    getAll b p ts = .ok (vs, p') →
+    vs.length = ts.length ∧ p'.sigIdx = p.sigIdx + (ts.map (fun t => t.toStr.length)).sum ∧
+    p.bufIdx ≤ p'.bufIdx ∧ p'.bufIdx ≤ max p.bufIdx b.buf.length ∧ (ts ≠ [] → p.bufIdx < p'.bufIdx) := by
+  intro ts
+  induction ts with
+  | nil =>
+    intro p p' vs h
+    simp only [getAll, Except.ok.injEq, Prod.mk.injEq] at h
+    obtain ⟨rfl, rfl⟩ := h
+    refine ⟨rfl, by simp, Nat.le_refl _, Nat.le_max_left _ _, fun hh => absurd rfl hh⟩
+  | cons t ts ih =>
+    intro p p' vs h
+    simp only [getAll] at h
+    cases hg : get b p t with
+    | error e => rw [hg] at h; simp at h
+    | ok r =>
+      obtain ⟨v, p1⟩ := r
+      rw [hg] at h
+      simp only at h
+      cases ha : getAll b p1 ts with
+      | error e => rw [ha] at h; simp at h
+      | ok r2 =>
+        obtain ⟨vs2, p2⟩ := r2
+        rw [ha] at h
+        simp only [Except.ok.injEq, Prod.mk.injEq] at h
+        obtain ⟨rfl, rfl⟩ := h
+        obtain ⟨h1, h2, h3, _, _⟩ := get_ok_advances b p p1 t v hg
+        obtain ⟨i1, i2, i3, i4, _⟩ := ih p1 p2 vs2 ha
+        refine ⟨by simp [i1], ?_, by omega, by omega, fun _ => by omega⟩
+        rw [i2, h1]
+        simp only [List.map_cons, List.sum_cons]
+        omega
+
+/-- A successful multi-get (`get2`..`get5`) advances by exactly the values returned: one value per requested type, the
+    signature index by the lengths of their signatures, the byte index forward to the end of the last value - and it is the
+    same as getting the values one by one. -/
+theorem getMult_ok_advances (b : Body) (p p' : Parser) (ts : List Ty) (vs : List Val)
+    (h : getMult b p ts = (.ok vs, p')) :
+    getAll b p ts = .ok (vs, p') ∧ vs.length = ts.length ∧
+    p'.sigIdx = p.sigIdx + (ts.map (fun t => t.toStr.length)).sum ∧ p.bufIdx ≤ p'.bufIdx ∧
+    (ts ≠ [] → p.bufIdx < p'.bufIdx) := by
+  unfold getMult at h
+  split at h
+  · simp at h
+  · cases ha : getAll b p ts with
+    | error e => rw [ha] at h; simp at h
+    | ok r =>
+      obtain ⟨vs', p''⟩ := r
+      rw [ha] at h
+      simp only [Prod.mk.injEq, Except.ok.injEq] at h
+      obtain ⟨rfl, rfl⟩ := h
+      obtain ⟨i1, i2, i3, _, i5⟩ := getAll_ok_advances b ts p p'' vs' ha
+      exact ⟨rfl, i1, i2, i3, i5⟩
+
+/-- A successful dynamic get returns the value the decoder reads for the NEXT type of the signature and advances by exactly
+    that value and that type's signature. -/
+theorem getParam_ok_advances (b : Body) (p p' : Parser) (t : Ty) (v : Val) (h : getParam b p = (.ok (t, v), p')) :
+    ∃ s, nextSig b p = some s ∧ p'.sigIdx = p.sigIdx + s.length ∧ p.bufIdx < p'.bufIdx ∧ p'.bufIdx ≤ b.buf.length ∧
+      dec b.bo b.buf (some b.nfds) maxDepth t p.bufIdx b.buf.length = some (v, p'.bufIdx) := by
+  unfold getParam at h
+  cases hn : nextSig b p with
+  | none => rw [hn] at h; simp at h
+  | some s =>
+    rw [hn] at h
+    simp only at h
+    cases hp : Sig.parseDescription s with
+    | none => rw [hp] at h; simp at h
+    | some l =>
+      cases l with
+      | nil => rw [hp] at h; simp at h
+      | cons t' rest =>
+        rw [hp] at h
+        simp only at h
+        cases hd : dec b.bo b.buf (some b.nfds) maxDepth t' p.bufIdx b.buf.length with
+        | none => rw [hd] at h; simp at h
+        | some r =>
+          obtain ⟨v', o'⟩ := r
+          rw [hd] at h
+          simp only [Prod.mk.injEq, Except.ok.injEq] at h
+          obtain ⟨⟨rfl, rfl⟩, rfl⟩ := h
+          obtain ⟨h1, h2, _⟩ := enc_dec _ _ _ _ _ _ _ _ _ hd
+          exact ⟨s, rfl, rfl, h1, h2, hd⟩
+
 /-- Requesting a type that does not match the next signature is an error rather than a misread. -/
 theorem get_mismatch_errors (b : Body) (ts₁ ts₂ : List Ty) (t t' : Ty)
     (hsig : Spec.Sig.Denotes b.sig (ts₁ ++ t :: ts₂)) (p : Parser)
@@ -216,3 +350,6 @@ end Rustbus.Body
 #print axioms Rustbus.Body.get_ok_advances
 #print axioms Rustbus.Body.get_mismatch_errors
 #print axioms Rustbus.Body.builder_parser_roundtrip
+#print axioms Rustbus.Body.getMult_ok_advances
+#print axioms Rustbus.Body.getParam_ok_advances
+#print axioms Rustbus.Body.rollback_makes_push_atomic
